@@ -35,9 +35,16 @@ package dialer
 //@   ensures 2 <= result && result < 8
 //@   ensures result == t.HealthKey().CollectionIndex()
 
+// muting is on while a reload scope is open, and afterwards until the published quiesce deadline, which
+// is a UnixNano value and must be compared with a UnixNano clock reading (the purity used by callers is
+// assumed; the body is checked against the anchors below)
 //@ func proxyFailureSuppressedForReload
 //@   pure
-//@   trusted
+//@   anchorsonly
+//@   trustframe
+//@   dyncalls noeffect
+//@   at return 1 assert result && reloadProxyFailureSuppression.Load() > 0
+//@   at return 2 assert calls("Time).UnixNano") == 1 && calls("time.Now") == 1
 //@ func (*Dialer).snapshotAliveDialerGroupsLocked
 //@   trusted
 //@ func (*Dialer).notifyAliveTransition
